@@ -176,3 +176,81 @@ Theorem c04_history_alignment : forall W e json (h : list top) i,
     end.
 Proof. exact text_history_alignment. Qed.
 Print Assumptions c04_history_alignment.
+
+(* THE RENDER PASS (Model/TextPass.v, Proofs/TextPassProofs.v).  RenderTo runs
+   t.InvokeRenderCallbacks() and only then reads what it renders; render-time
+   property callbacks of the application (on the table, a column, a row, a
+   cell; pre-cell, cell, post-cell) may write column alignments.  `ws` are
+   those writes in execution order; text_render_to is the pass (output, table
+   afterwards); after_callbacks ws v is the view Column(n).GetProperty reports
+   once the callbacks are done. *)
+From Tab Require Import Model.TextPass Proofs.TextPassProofs.
+
+(* The output of the pass is the flattened layout of the view AFTER the
+   callbacks (same slots, same texts: c04_slots / c04_unmodified / c04_blank
+   apply to it) ... *)
+Theorem c04_pass_refines : forall W e json d (h : list top) (ws : list cbwrite),
+  twf_hist h -> (1 <= hist_ncols h)%nat -> dec_ok d ->
+  fst (text_render_to W d (vcell_of_item W e json) (trun h) ws)
+  = Ok (concat (map flatten (layout W d (after_callbacks ws (hview W e json h))))).
+Proof. exact pass_refines_proof. Qed.
+Print Assumptions c04_pass_refines.
+
+(* ... in which nothing but the alignments has moved ... *)
+Theorem c04_pass_shape : forall W e json (h : list top) (ws : list cbwrite),
+  twf_hist h ->
+  v_ncols (after_callbacks ws (hview W e json h)) = v_ncols (hview W e json h)
+  /\ v_header (after_callbacks ws (hview W e json h)) = v_header (hview W e json h)
+  /\ v_rows (after_callbacks ws (hview W e json h)) = v_rows (hview W e json h).
+Proof. exact pass_shape_proof. Qed.
+Print Assumptions c04_pass_shape.
+
+(* ... and column i is aligned by the callbacks' LAST write to the column if
+   they wrote it during this pass (a write of nil clears), else by the latest
+   setting the history before the pass made; failing both, the same for the
+   all-columns default on column 0; else left.  The alignment of the moment
+   RenderTo was entered, or of an earlier pass, does not count. *)
+Theorem c04_pass_alignment : forall W e json (h : list top) (ws : list cbwrite) i,
+  twf_hist h -> (i < hist_ncols h)%nat ->
+  eff_align (after_callbacks ws (hview W e json h)) i
+  = match pass_align h ws (S i) with
+    | Some a => a
+    | None => match pass_align h ws 0%nat with Some a => a | None => ALeft end
+    end.
+Proof. exact pass_alignment_proof. Qed.
+Print Assumptions c04_pass_alignment.
+
+(* the view said on the table: a pass ends in the table the history extended
+   by the writes builds, so a second pass starts from there *)
+Theorem c04_pass_is_history : forall W e json (h : list top) (ws : list cbwrite),
+  twf_hist h ->
+  hview W e json (h ++ cb_ops ws) = after_callbacks ws (hview W e json h)
+  /\ trun (h ++ cb_ops ws) = invoke_render_callbacks (trun h) ws
+  /\ twf_hist (h ++ cb_ops ws).
+Proof. exact pass_is_history_proof. Qed.
+Print Assumptions c04_pass_is_history.
+
+(* an unknown decoration is refused before any callback runs *)
+Theorem c04_pass_refused : forall W e json d (st : tstate) (ws : list cbwrite),
+  Decoration.is_empty_decoration d = true ->
+  text_render_to W d (vcell_of_item W e json) st ws = (Err, st).
+Proof. exact pass_refused_proof. Qed.
+Print Assumptions c04_pass_refused.
+
+(* non-vacuity: a callback that sets column 2 right and clears the default
+   (centre) during the pass: the pass shows column 1 left, column 2 right; a
+   render that had read the alignments before the callbacks would differ *)
+Example c04_pass_example :
+  let W := fun s : list N => length s in
+  let c s := mkVCell s false None (Z.of_nat (list_max (map W (lines_of s)))) 1%Z false in
+  let v := mkView 2%nat None [Some [c [97; 97; 97]; c [98; 98; 98]]; Some [c [120]; c [121]]]
+                  [Some ACenter; None; None] [None; None; None] in
+  let d := populate (mkDecor [45] [124] [43] [] [] [] [] [] [] [] [] [] [] [] [] [] [] [] [] [] [] [] false) in
+  let ws := [(2%nat, Some ARight); (0%nat, None); (7%nat, Some ACenter)] in
+  text_render W d (after_callbacks ws v)
+  = Ok ([43;45;45;45;45;45;43;45;45;45;45;45;43;10]
+        ++ [124;32;97;97;97;32;124;32;98;98;98;32;124;10]
+        ++ [124;32;120;32;32;32;124;32;32;32;121;32;124;10]
+        ++ [43;45;45;45;45;45;43;45;45;45;45;45;43;10])
+  /\ text_render W d (after_callbacks ws v) <> text_render W d v.
+Proof. cbv zeta. split; [vm_compute; reflexivity | vm_compute; discriminate]. Qed.
